@@ -159,22 +159,24 @@ func maxInt64(a, b int64) int64 {
 }
 
 func companionPartExists(cmp *sts.Partial, beg, end int64) bool {
-	overlap := int64(0)
-	var n int64
-	var minEnd int64
-	var maxBeg int64
-	for _, p := range cmp.Parts {
-		maxBeg = maxInt64(beg, p.Beg)
-		minEnd = minInt64(end, p.End)
-		n = minEnd - maxBeg
-		if n > 0 {
-			overlap += n
-			if overlap == end-beg {
-				return true
+	// Walk forward from beg through the recorded parts (which may overlap and
+	// are not necessarily ordered) until end is reached or a byte is found that
+	// no part contains. Summing overlaps instead would count bytes twice when
+	// recorded parts overlap and report ranges that were never received.
+	pos := beg
+	for pos < end {
+		advanced := false
+		for _, p := range cmp.Parts {
+			if p.Beg <= pos && pos < p.End {
+				pos = p.End
+				advanced = true
 			}
 		}
+		if !advanced {
+			return false
+		}
 	}
-	return overlap == end-beg
+	return true
 }
 
 func isCompanionComplete(cmp *sts.Partial) bool {
